@@ -53,7 +53,12 @@ def copyBits (all : List Nat) (newp : List Nat) (length : Nat) : Nat → Nat →
 def pushPresent (present : Option (List Nat)) (newp : Option (List Nat)) (length count : Nat) :
     Option (List Nat) :=
   match present with
-  | none => none
+  | none =>
+    -- `if self.present.is_none() && new_present.is_some() { self.init_present() }` (typed arm of `init_present`:
+    -- the rows pushed so far are all present); only compaction supplies a null map
+    match newp with
+    | some np => some (copyBits (initAllPresent length) np length 0 count)
+    | none => none
   | some all =>
     match newp with
     | some np => some (copyBits all np length 0 count)
